@@ -17,6 +17,7 @@ import (
 	"context"
 	"errors"
 	"fmt"
+	"runtime"
 	"strings"
 	"testing"
 	"time"
@@ -36,6 +37,31 @@ type c38Hist struct {
 	rows    int
 	aborted string
 	linTO   time.Duration
+}
+
+// watch runs a call that has no timeout of its own (raft membership changes, leadership
+// transfer) under a watchdog: if it does not return, the history is abandoned (noted, with
+// a goroutine dump) instead of blocking the whole check.
+func (h *c38Hist) watch(what string, f func() error) (error, bool) {
+	ch := make(chan error, 1)
+	go func() { ch <- f() }()
+	select {
+	case err := <-ch:
+		return err, true
+	case <-time.After(150 * time.Second):
+		buf := make([]byte, 1<<20)
+		n := runtime.Stack(buf, true)
+		dump := string(buf[:n])
+		if i := strings.Index(dump, "store.(*Store)."); i > 2000 {
+			dump = dump[i-2000:]
+		}
+		if len(dump) > 12000 {
+			dump = dump[:12000]
+		}
+		h.aborted = what + " did not return within 150s"
+		h.rep.Note("C38: %s blocked; goroutines: %s", what, dump)
+		return nil, false
+	}
 }
 
 func (h *c38Hist) emit(op, out string) {
@@ -254,18 +280,18 @@ func (h *c38Hist) do(kind string, r *vfRng, maxNodes int) string {
 		}
 		return "noopcmd"
 	case "barrier":
-		if err := leader.S.Barrier(); err != nil {
+		if err, done := h.watch("Barrier", leader.S.Barrier); done && err != nil {
 			h.aborted = "barrier: " + err.Error()
 		}
 		return "barrier"
 	case "snapshot":
-		if err := leader.S.Snapshot(0); err != nil {
+		if err, done := h.watch("Snapshot(0)", func() error { return leader.S.Snapshot(0) }); done && err != nil {
 			h.rep.Count("snapshot-declined")
 		}
 		return "snapshot"
 	case "snapshot-compact":
 		// a user-requested snapshot that leaves ONE trailing log entry: the log below it is deleted
-		if err := leader.S.Snapshot(1); err != nil {
+		if err, done := h.watch("Snapshot(1)", func() error { return leader.S.Snapshot(1) }); done && err != nil {
 			h.rep.Count("snapshot-declined")
 		}
 		return "snapshot-compact"
@@ -284,7 +310,9 @@ func (h *c38Hist) do(kind string, r *vfRng, maxNodes int) string {
 			h.aborted = "new node: " + err.Error()
 			return ""
 		}
-		if err := leader.S.Join(joinRequest(n.Name, n.Addr, kind == "join-voter")); err != nil {
+		if err, done := h.watch("Join", func() error { return leader.S.Join(joinRequest(n.Name, n.Addr, kind == "join-voter")) }); !done {
+			return ""
+		} else if err != nil {
 			h.aborted = "join: " + err.Error()
 			return ""
 		}
@@ -310,7 +338,7 @@ func (h *c38Hist) do(kind string, r *vfRng, maxNodes int) string {
 				isVoter = true
 			}
 		}
-		if err := leader.S.Join(joinRequest(n.Name, n.Addr, isVoter)); err != nil {
+		if err, done := h.watch("Join(same)", func() error { return leader.S.Join(joinRequest(n.Name, n.Addr, isVoter)) }); done && err != nil {
 			h.aborted = "rejoin: " + err.Error()
 		}
 		return "rejoin-same"
@@ -325,7 +353,9 @@ func (h *c38Hist) do(kind string, r *vfRng, maxNodes int) string {
 			return ""
 		}
 		id := r.Pick(cand)
-		if err := leader.S.Remove(context.Background(), removeNodeRequest(id)); err != nil {
+		if err, done := h.watch("Remove", func() error { return leader.S.Remove(context.Background(), removeNodeRequest(id)) }); !done {
+			return ""
+		} else if err != nil {
 			h.aborted = "remove: " + err.Error()
 			return ""
 		}
@@ -341,7 +371,9 @@ func (h *c38Hist) do(kind string, r *vfRng, maxNodes int) string {
 		if upVoters < 2 {
 			return ""
 		}
-		if err := leader.S.Stepdown(true, ""); err != nil {
+		if err, done := h.watch("Stepdown", func() error { return leader.S.Stepdown(true, "") }); !done {
+			return ""
+		} else if err != nil {
 			h.rep.Count("stepdown-declined")
 			return ""
 		}
@@ -451,7 +483,9 @@ func TestVerifC38(t *testing.T) {
 	hists := vfScale(2, 30)
 	nOps := vfScale(10, 24)
 	for i := 0; i < hists; i++ {
+		t0 := time.Now()
 		ops, impl, ok := c38RunHistory(t, rep, r, nOps, 3, nil)
+		t.Logf("C38 history %d/%d: completed=%v in %s", i+1, hists, ok, time.Since(t0).Round(time.Second))
 		if ok {
 			completed++
 		}
